@@ -60,7 +60,7 @@ int lbuf_search(struct lbuf *lb, char *kw, int dir, int *r, int *o, int *len)
 		return 1;
 	for (i = r0; !found && i >= 0 && i < lbuf_len(lb); i += dir) {
 		char *s = lbuf_get(lb, i);
-		int off = dir > 0 && r0 == i ? uc_chr(s, o0 + 1) - s : 0;
+		int off = dir > 0 && r0 == i ? uc_chr(s, MIN(o0 + 1, uc_slen(s))) - s : 0;
 		while (rstr_find(re, s + off, 1, offs,
 				off ? RE_NOTBOL : 0) >= 0) {
 			if (dir < 0 && r0 == i &&
